@@ -83,7 +83,18 @@ META["C03"] = {
     "technique": "explicit-state BFS over operation sequences on the implementation with reference state machine comparison",
 }
 
-ENGINE_OF = {"C03": "seq", "C06": "seq+sched", "C09": "sched", "C08": "seq", "C02": "seq+sched", "C04": "seq+sched", "C01": "seq+sched"}
+META["C12"] = {
+    "level": "model_checking",
+    "rule": "scenario = strategy (3) x initial breaker state (closed / open with the timeout elapsed / freshly open / half-open, reached sequentially on a real breaker installed by LoadRules) x probe number x thread programs (2-3 threads, 1-2 steps each of failing completion, successful completion, TryPass, clock tick of one retry timeout / 1 ms); for each scenario ALL interleavings at atomic-access granularity are enumerated (stateless DFS, global state key, shared-location reduction, fair scheduling); oracle per execution: multiset of listener callbacks = multiset of successful writes to the state word (observed by the shim, with previous value), the writes form a legal path, no Open->HalfOpen earlier than a full retry timeout after the write that opened the breaker (virtual clock at the write itself), every TryPass answer justified by the state value it loaded and by whether it won the probe transition; distinct outcome = scenario + write sequence + answers",
+    "assumptions": [A_SHIM, A_CLOCK, A_OVERLAY, "breaker driven directly through TryPass / OnRequestComplete (the calls the slots make)"],
+    "budget_quick": 90,
+    "budget_thorough": 900,
+    "text": "Exhaustive enumeration of all interleavings of 2-3 threads around every breaker transition on the real code, judged against the ground-truth sequence of state-word writes.",
+    "level_note": "2-3 threads, 1-2 steps each, at most 2 clock ticks; sequentially consistent atomics.",
+    "technique": "stateless model checking of the implementation under a controlled scheduler (all interleavings, state-key pruning, POR)",
+}
+
+ENGINE_OF = {"C12": "sched", "C03": "seq", "C06": "seq+sched", "C09": "sched", "C08": "seq", "C02": "seq+sched", "C04": "seq+sched", "C01": "seq+sched"}
 
 # properties not claimed, with the reason (kept current)
 NOT_APPLICABLE = {}
